@@ -50,10 +50,11 @@ class C02(DiffProperty):
                   "handed to the handler is a prefix of the messages completed on the writer side as told by the return values of mpt_stream_push). "
                   "Tied to the code by differential execution of the same ring-level model (state compared after every operation) on rings of many capacities/offsets "
                   "with arbitrary wire cuts incl. single-byte delivery, decided against the specification 'received = sent'")
-    level_note = ("partial: (1) liveness is proved for the reader side incl. the growth policy of mpt_stream_dispatch (C02_ring_dispatch_policy_delivers: receive / enlarge by 64 / "
-                  "receive, iterated: every failed attempt consumes at least 47 bytes of the frame, a complete frame whose delimiter is L bytes ahead is delivered within L/47+1 "
-                  "attempts; C02_ring_round_progress for any enlargement), but not for whole glue histories: that a drain moves every finished byte through the kernel oracle "
-                  "and delivers everything is decided against the specification only; "
+    level_note = ("partial: (1) liveness is proved for the reader side of the glue: C02_dispatch_delivers (in any reachable glue state, once a complete accepted frame is in the "
+                  "input ring ONE mpt_stream_dispatch hands a message to the handler: streamRecv enlarges by 64 as often as the decoder asks, every round consumes at least 47 "
+                  "bytes of the frame -- C02_ring_round_progress, C02_ring_dispatch_policy_delivers, C02_stream_recv_delivers), but not for the transport: that flush and poll "
+                  "move every finished byte through the kernel oracle is decided against the specification only (two stall defects of exactly this kind were found by the "
+                  "thorough tier and by the input-object cases, and repaired: one enlargement only; the stream input returning MissingBuffer to the event loop); "
                   "(2) not modelled: poll() paths with a timeout, POLLOUT handling, memory-mapped and text-mode "
                   "streams. The glue model is tied to the code by differential execution with scripted transfers (three defects were found in the glue and repaired). "
                   "Theorems closed under the global context.")
@@ -76,7 +77,7 @@ class C02(DiffProperty):
         if it is None or st is None or mt is None:
             r["corr"] = (-1, "missing output", "I=%s M=%s S=%s" % (it is not None, mt is not None, st is not None))
             return r
-        io = 10 <= int(case.split()[0]) < 30     # stream glue over a real socketpair: no mechanism model, specification only
+        io = 10 <= int(case.split()[0]) < 30 or int(case.split()[0]) >= 50     # stream glue over a real socketpair: no mechanism model, specification only
         for j in range(max(len(it), len(mt))):
             a = it[j] if j < len(it) else "<none>"
             b = mt[j] if j < len(mt) else "<none>"
@@ -120,8 +121,8 @@ class C02(DiffProperty):
         ided = ["c%d %s" % (i, c) for i, c in enumerate(cases)]
         hg = vcheck.build_harness("c02_glue.c", ["mptio", "mptcore"], extra=["-Wl,--wrap=writev", "-Wl,--wrap=readv"])
         vid = lambda l: int(l.split(None, 2)[1])
-        isio = lambda l: 10 <= vid(l) < 30
-        isglue = lambda l: vid(l) >= 30
+        isio = lambda l: 10 <= vid(l) < 30 or vid(l) >= 50
+        isglue = lambda l: 30 <= vid(l) < 40
         I, errs = {}, []
         # the stream glue cases get a short per-case time limit: a livelock in the library must not cost 10 s per case
         for exe, sub, tag, args in ((hq, [l for l in ided if vid(l) < 10], "impl", self.harness_args),
@@ -153,13 +154,13 @@ class C02(DiffProperty):
 
     def shrink(self, case, kind, workdir, budget=12):
         # stream glue cases run against the kernel with a per-case time limit: keep their shrinking short
-        if 10 <= int(case.split()[0]) < 30:
+        if 10 <= int(case.split()[0]) < 30 or int(case.split()[0]) >= 50:
             budget = 3
         return super().shrink(case, kind, workdir, budget)
 
     def shrink_candidates(self, case):
         hdr, ops = self.split(case)
-        if 10 <= int(hdr[0]) < 30:
+        if 10 <= int(hdr[0]) < 30 or int(hdr[0]) >= 50:
             # whole operations only, at most 24 candidates per round
             n = 0
             for k in range(len(ops)):
@@ -198,8 +199,10 @@ class C02(DiffProperty):
                 cl.add("single-byte-delivery")
         if 10 <= int(hdr[0]) < 30:
             cl.add("stream-glue")
-        if int(hdr[0]) >= 30:
+        if 30 <= int(hdr[0]) < 40:
             cl.add("stream-glue-mechanism")
+        if int(hdr[0]) >= 50:
+            cl.add("stream-input-object")
         return cl
 
     def gen_msg(self, rng, v, maxn):
@@ -355,6 +358,22 @@ class C02(DiffProperty):
                     ops += ["fin"]
             ops += ["drain"]
             cases.append(" ".join([str(v), str(size), "0", "0", "0"] + ops))
+        # the stream INPUT object (mpt_stream_input, what the event loop holds) as reader, driven like mpt_loop does: frames that
+        # need scratch space written in one piece (nothing arrives afterwards that could trigger another enlargement)
+        ni = 200 if tier == "quick" else 4000
+        for i in range(ni):
+            v = 50 + i % 4
+            ops = []
+            for _ in range(rng.choice([1, 1, 2, 3])):
+                m = [rng.randrange(1, 256) for _ in range(rng.choice([0, 0, 5, 60, 200, 230]))]
+                for _ in range(rng.choice([0, 3, 20, 31, 33, 64, 100, 300])):
+                    m += [rng.randrange(1, 256)] * rng.choice([0, 1, 1, 2]) + [0, 0]
+                m += [rng.randrange(1, 256) for _ in range(rng.choice([0, 0, 3]))]
+                ops += ["send", hx(m)]
+                if rng.random() < 0.6:
+                    ops += ["drain"]
+            ops += ["drain"]
+            cases.append(" ".join([str(v), "0", "0", "0", "0"] + ops))
         # stream glue at MECHANISM level (harness/c02_glue.c, coq/Cobs/GlueRun.v): the real mpt_stream_push / flush /
         # poll / dispatch with scripted transfer sizes (partial writes, writes of 0, failing writes, short reads incl.
         # single bytes, reads into full and wrapped rings), rings of small capacities and arbitrary offsets
